@@ -46,6 +46,15 @@ type w4Cfg struct {
 	Epoch0            string `json:"epoch0"`         // backend/publisher epoch at start ("" = no epoch logic)
 	RespectCtx        bool   `json:"respect_ctx"`    // backend returns ctx.Err() when the call context ended
 	SkipUnchanged     bool   `json:"skip_unchanged"` // versioned backend omits items that are not newer than requested
+	// C05 mode (zz_verif_w4_c05_test.go): connections are closed at arbitrary points of keyed
+	// tracking and the node must keep no trace of them
+	C05        bool   `json:"c05,omitempty"`
+	Presence   string `json:"presence,omitempty"`    // subscribe options: e EmitPresence, M MapClientPresenceChannel, U MapUserPresenceChannel
+	PresenceMs int    `json:"presence_ms,omitempty"` // ClientPresenceUpdateInterval (0 = library default)
+	QueueMax   int    `json:"queue_max,omitempty"`   // ClientQueueMaxSize (slow consumer when a stalled transport lets the queue grow)
+	// OnCommandProcessed handler (documented tracing hook, called after the reply of a command
+	// was queued) takes this much virtual time for subscribe / sub_refresh commands
+	ProcDelayUs int `json:"proc_delay_us,omitempty"`
 }
 
 type w4Op struct {
@@ -57,6 +66,8 @@ type w4Op struct {
 	User    string `json:"user,omitempty"`
 	Mode    int    `json:"mode,omitempty"` // revoke: 0 everybody, 1 users=[User], 2 excludeUsers=[User]
 	N       int    `json:"n,omitempty"`    // burst: number of concurrent writers
+	C       int    `json:"c,omitempty"`    // kill: index of the connection to close
+	Us      int    `json:"us,omitempty"`   // kill: extra microseconds to wait before acting
 }
 
 type w4Client struct {
@@ -140,6 +151,9 @@ type w4Cmd struct {
 	ErrCode               uint32
 	Replied               bool
 	Overlaps              map[string]int // per key: ks.overlaps when the command was sent alone (-1 otherwise)
+	Async                 bool           // the handler answers from another goroutine (C05 mode bookkeeping)
+	ServerDone            bool           // the server finished handling the command (HandleCommand returned / asynchronous completion returned)
+	Fail                  bool           // the handler was told to answer with an error
 }
 
 type w4KeyState struct {
@@ -226,6 +240,29 @@ type w4Conn struct {
 	resubbing     bool
 	resubs        int
 	endWhy        string
+
+	// C05 mode
+	closedAt      time.Duration
+	closeReason   string
+	closedByEnd   bool                // closed by the harness after the scripted activity ended
+	named         map[string]*w4Named // keys this connection ever named in a track command
+	subsSent      int
+	atClose       []string // kinds of the commands the server had not finished handling when the transport was closed
+	atCloseCmds   []*w4Cmd
+	pendingJoinAt bool // some key of the channel had a hub-join reservation pending at the close
+	overlapEver   bool
+	subRaced      bool // the handling of a subscribe command completed after the connection was closed / the channel unsubscribed
+}
+
+// w4Named: what a connection did with one key over its whole life (C05 attribution)
+type w4Named struct {
+	tracks     int
+	overlapped bool // commands naming the key overlapped in flight at some point
+	raced      bool // the handling of a track naming the key completed after the connection was closed / the channel unsubscribed
+	// a command naming the key was sent while the server had not finished handling an earlier
+	// one naming it although that one's reply had already been received (the track reply is
+	// written before the hub join)
+	serverOverlap bool
 }
 
 type w4Unsub struct {
@@ -251,6 +288,15 @@ type w4World struct {
 	revokes   []*w4Revoke
 	flips     []w4Flip
 	keyNames  []string
+
+	// C05 mode
+	reg           *prometheus.Registry
+	pendingAsync  int // asynchronous OnSubscribe / OnTrack completions outstanding
+	pollsInFlight int
+	revokesInCall int
+	shutdownDone  bool
+	bdelSeen      bool
+	base          w4Gauges // gauges before the first connection was created
 }
 
 func (w *w4World) next() int64 { w.seq++; return w.seq }
@@ -262,6 +308,9 @@ type w4Transport struct {
 	cl     *w4Conn
 	proto  ProtocolType
 	closed bool
+	// C05 mode faults
+	failWrites bool // every write fails (peer reset)
+	stalled    bool // the peer stopped reading: writes block until the 1 s write timeout fails them
 }
 
 func (t *w4Transport) Name() string                     { return "sim" }
@@ -278,8 +327,19 @@ func (t *w4Transport) PingPongConfig() PingPongConfig {
 func (t *w4Transport) Write(data []byte) error { return t.WriteMany(data) }
 
 func (t *w4Transport) WriteMany(datas ...[]byte) error {
-	if t.closed {
+	if t.closed || t.failWrites {
 		return io.ErrClosedPipe
+	}
+	if t.stalled {
+		for i := 0; t.stalled && !t.closed && i < 10; i++ {
+			t.w.s.Sleep(100 * time.Millisecond)
+		}
+		if t.stalled {
+			return errors.New("sim write timeout")
+		}
+		if t.closed {
+			return io.ErrClosedPipe
+		}
 	}
 	for _, data := range datas {
 		t.cl.onData(data)
@@ -294,6 +354,10 @@ func (t *w4Transport) Close(d Disconnect) error {
 	t.closed = true
 	t.cl.closedSeq = t.w.next()
 	t.cl.closeCode = d.Code
+	t.cl.closedAt, t.cl.closeReason = t.w.s.Now(), d.Reason
+	if t.w.sc.Cfg.C05 {
+		t.cl.c05OnClose()
+	}
 	t.cl.endWhy = "transport close"
 	t.cl.endTrackingAll(t.cl.closedSeq, t.cl.endWhy)
 	t.cl.subscribed = false
@@ -396,6 +460,9 @@ func (cl *w4Conn) send2(kind string, build func(rec *w4Cmd) *protocol.Command) (
 		return false, nil
 	}
 	if cl.client == nil {
+		if w.shutdownDone {
+			return false, nil
+		}
 		c, closeFn, err := NewClient(context.Background(), w.node, cl.tr)
 		if err != nil {
 			panic(err)
@@ -416,12 +483,21 @@ func (cl *w4Conn) send2(kind string, build func(rec *w4Cmd) *protocol.Command) (
 			if _, dup := rec.Overlaps[k]; dup {
 				continue
 			}
+			if w.sc.Cfg.C05 {
+				for _, other := range cl.cmds {
+					if other != rec && !other.ServerDone && (other.Kind == "track" || other.Kind == "untrack") && (w4Has(other.Keys, k) || w4Has(other.Unt, k)) {
+						cl.name(k).serverOverlap = true
+					}
+				}
+			}
 			ks := cl.keyState(k)
 			if ks.inflight > 0 {
 				ks.overlaps++
 				ks.ambig = true
 				rec.Overlaps[k] = -1
 				w.s.Probe("commands_overlap_on_key")
+				cl.name(k).overlapped = true
+				cl.overlapEver = true
 			} else {
 				rec.Overlaps[k] = ks.overlaps
 			}
@@ -431,12 +507,25 @@ func (cl *w4Conn) send2(kind string, build func(rec *w4Cmd) *protocol.Command) (
 	w.s.Event("c%d cmd %s id=%d keys=%v unt=%v", cl.idx, kind, cmd.Id, rec.Keys, rec.Unt)
 	ok := cl.client.HandleCommand(cmd, 10)
 	rec.RetSeq = w.next()
+	if !rec.Async {
+		rec.ServerDone = true
+		cl.c05Completed(rec)
+	}
 	if !ok {
 		cl.readerDone = true
 		w.s.Event("c%d reader stops", cl.idx)
 		_ = cl.closeFn()
 	}
 	return ok, rec
+}
+
+func w4Has(xs []string, x string) bool {
+	for _, v := range xs {
+		if v == x {
+			return true
+		}
+	}
+	return false
 }
 
 func (cl *w4Conn) keyState(k string) *w4KeyState {
@@ -477,15 +566,18 @@ func (cl *w4Conn) sendTrack(keys, unt []string, delayMs int, fail bool) bool {
 			}
 			ks.pending++
 			rec.Claimed[k] = claim
+			cl.name(k).tracks++
 			items = append(items, &protocol.KeyedItem{Key: k, Version: claim})
 			cl.wantKeys[k] = true
 		}
 		for _, k := range unt {
 			delete(cl.wantKeys, k)
 		}
-		return &protocol.Command{Id: cl.id(), SubRefresh: &protocol.SubRefreshRequest{
+		id := cl.id()
+		rec.Async, rec.Fail = delayMs > 0, fail
+		return &protocol.Command{Id: id, SubRefresh: &protocol.SubRefreshRequest{
 			Channel: w4Channel, Type: typeTrack, Untrack: unt,
-			Track: []*protocol.TrackBatch{{Items: items, Signature: fmt.Sprintf("%d:%v", delayMs, fail)}},
+			Track: []*protocol.TrackBatch{{Items: items, Signature: fmt.Sprintf("%d:%v:%d", delayMs, fail, id)}},
 		}}
 	})
 }
@@ -507,13 +599,23 @@ func (cl *w4Conn) sendUntrack(keys []string) bool {
 
 func (cl *w4Conn) markOwnEnd() { cl.excuse(cl.w.seq + 1) }
 
-func (cl *w4Conn) sendSubscribe() bool {
+func (cl *w4Conn) sendSubscribe() bool { return cl.sendSubscribeOpt(0, false) }
+
+// sendSubscribeOpt: delayMs > 0 makes the OnSubscribe handler answer asynchronously after
+// that virtual delay, fail makes it answer with an error (both travel in the token).
+func (cl *w4Conn) sendSubscribeOpt(delayMs int, fail bool) bool {
 	return cl.send("subscribe", func(rec *w4Cmd) *protocol.Command {
 		req := &protocol.SubscribeRequest{Channel: w4Channel, Type: int32(SubscriptionTypeSharedPoll)}
+		id := cl.id()
+		rec.Async, rec.Fail = delayMs > 0, fail
+		if delayMs > 0 || fail {
+			req.Token = fmt.Sprintf("%d:%v:%d", delayMs, fail, id)
+		}
+		cl.subsSent++
 		if cl.spec.Delta {
 			req.Delta = string(DeltaTypeFossil)
 		}
-		return &protocol.Command{Id: cl.id(), Subscribe: req}
+		return &protocol.Command{Id: id, Subscribe: req}
 	})
 }
 
@@ -552,7 +654,34 @@ func (cl *w4Conn) runOp(op w4Op) bool {
 			return &protocol.Command{Id: cl.id(), Connect: &protocol.ConnectRequest{Token: cl.spec.User}}
 		})
 	case "sub":
-		return cl.sendSubscribe()
+		return cl.sendSubscribeOpt(op.DelayMs, op.Err)
+	case "stall":
+		// the peer stops reading
+		cl.tr.stalled = true
+		s.Event("c%d transport stalls", cl.idx)
+		s.Fault("transport_stall")
+		return true
+	case "unstall":
+		cl.tr.stalled = false
+		return true
+	case "failw":
+		cl.tr.failWrites = true
+		s.Event("c%d transport fails writes", cl.idx)
+		s.Fault("transport_write_error")
+		return true
+	case "cdisc":
+		if cl.client == nil {
+			return true
+		}
+		s.Event("c%d server-side Client.Disconnect", cl.idx)
+		s.Fault("client_disconnect")
+		cl.markOwnEnd()
+		if op.Mode == 1 {
+			cl.client.Disconnect(DisconnectServerError)
+		} else {
+			cl.client.Disconnect(DisconnectForceNoReconnect)
+		}
+		return true
 	case "track":
 		keys := cl.keysOf(op.Keys)
 		if len(keys) == 0 {
@@ -610,7 +739,7 @@ func (w *w4World) resume(old *w4Conn, op w4Op) *w4Conn {
 	old.runOp(w4Op{K: "close"})
 	s.Fault("reconnect")
 	s.Sleep(time.Duration(op.DelayMs) * time.Millisecond)
-	nc := &w4Conn{w: w, idx: len(w.conns), spec: old.spec, proto: old.proto, cmds: map[uint32]*w4Cmd{}, keys: map[string]*w4KeyState{}, wantKeys: map[string]bool{}}
+	nc := &w4Conn{w: w, idx: len(w.conns), spec: old.spec, proto: old.proto, cmds: map[uint32]*w4Cmd{}, keys: map[string]*w4KeyState{}, wantKeys: map[string]bool{}, named: map[string]*w4Named{}}
 	nc.tr = &w4Transport{w: w, cl: nc, proto: nc.proto}
 	w.conns = append(w.conns, nc)
 	if !nc.runOp(w4Op{K: "connect"}) || !had {
@@ -695,9 +824,24 @@ func (w *w4World) options() SharedPollChannelOptions {
 
 func (w *w4World) setup() error {
 	opts := w.options()
+	w.reg = prometheus.NewRegistry()
+	c5 := w.sc.Cfg
 	node, err := New(Config{
-		LogLevel: LogLevelNone,
-		Metrics:  MetricsConfig{RegistererGatherer: prometheus.NewRegistry()},
+		LogLevel:                     LogLevelNone,
+		Metrics:                      MetricsConfig{RegistererGatherer: w.reg},
+		ClientQueueMaxSize:           c5.QueueMax,
+		ClientPresenceUpdateInterval: time.Duration(c5.PresenceMs) * time.Millisecond,
+		Map: MapConfig{GetMapChannelOptions: func(ch string) MapChannelOptions {
+			switch {
+			case strings.HasPrefix(ch, "mcp:"):
+				// longer than any run: a client key that survives its connection stays visible
+				return MapChannelOptions{Mode: MapModeEphemeral, KeyTTL: 10 * time.Minute}
+			case strings.HasPrefix(ch, "mup:"):
+				// user keys are by design left to their TTL
+				return MapChannelOptions{Mode: MapModeEphemeral, KeyTTL: w4UserPresenceTTL}
+			}
+			return MapChannelOptions{}
+		}},
 		SharedPoll: SharedPollConfig{
 			GetSharedPollChannelOptions: func(ch string) (SharedPollChannelOptions, bool) {
 				if ch == w4Channel {
@@ -711,32 +855,66 @@ func (w *w4World) setup() error {
 		return err
 	}
 	w.node = node
+	if us := c5.ProcDelayUs; us > 0 {
+		node.OnCommandProcessed(func(c *Client, e CommandProcessedEvent) {
+			if e.Command != nil && (e.Command.SubRefresh != nil || e.Command.Subscribe != nil) {
+				w.s.Probe("slow_command_processed_handler")
+				w.s.Sleep(time.Duration(us) * time.Microsecond)
+			}
+		})
+	}
 	node.OnSharedPoll(w.poll)
 	node.OnConnecting(func(ctx context.Context, e ConnectEvent) (ConnectReply, error) {
 		return ConnectReply{Credentials: &Credentials{UserID: e.Token}}, nil
 	})
 	node.OnConnect(func(c *Client) {
 		c.OnSubscribe(func(e SubscribeEvent, cb SubscribeCallback) {
-			cb(SubscribeReply{Options: SubscribeOptions{AllowedDeltaTypes: []DeltaType{DeltaTypeFossil}}}, nil)
+			reply := SubscribeReply{Options: SubscribeOptions{AllowedDeltaTypes: []DeltaType{DeltaTypeFossil}}}
+			for _, f := range c5.Presence {
+				switch f {
+				case 'e':
+					reply.Options.EmitPresence = true
+				case 'M':
+					reply.Options.MapClientPresenceChannel = w4MapClientPresence
+				case 'U':
+					reply.Options.MapUserPresenceChannel = w4MapUserPresence
+				}
+			}
+			delay, fail, id := w4ParseSig(e.Token)
+			var rerr error
+			if fail {
+				rerr = ErrorPermissionDenied
+			}
+			if delay > 0 {
+				w.pendingAsync++
+				w.s.Go(func() {
+					w.s.Sleep(time.Duration(delay) * time.Millisecond)
+					w.s.Probe("async_subscribe_cb")
+					cb(reply, rerr)
+					w.pendingAsync--
+					w4ServerDone(c, id)
+				})
+				return
+			}
+			cb(reply, rerr)
 		})
 		c.OnTrack(func(e TrackEvent, cb TrackCallback) {
-			delay, fail := 0, false
+			delay, fail, id := 0, false, uint32(0)
 			if len(e.Batches) > 0 {
-				sig := e.Batches[0].Signature
-				if i := strings.IndexByte(sig, ':'); i >= 0 {
-					delay, _ = strconv.Atoi(sig[:i])
-					fail = sig[i+1:] == "true"
-				}
+				delay, fail, id = w4ParseSig(e.Batches[0].Signature)
 			}
 			var rerr error
 			if fail {
 				rerr = ErrorPermissionDenied
 			}
 			if delay > 0 {
+				w.pendingAsync++
 				w.s.Go(func() {
 					w.s.Sleep(time.Duration(delay) * time.Millisecond)
 					w.s.Probe("async_track_cb")
 					cb(TrackReply{}, rerr)
+					w.pendingAsync--
+					w4ServerDone(c, id)
 				})
 				return
 			}
@@ -747,6 +925,31 @@ func (w *w4World) setup() error {
 		c.OnDisconnect(func(e DisconnectEvent) {})
 	})
 	return node.Run()
+}
+
+// w4ParseSig decodes "delayMs:fail[:commandID]" (track batch signature / subscribe token).
+func w4ParseSig(sig string) (delay int, fail bool, id uint32) {
+	parts := strings.Split(sig, ":")
+	if len(parts) < 2 {
+		return 0, false, 0
+	}
+	delay, _ = strconv.Atoi(parts[0])
+	fail = parts[1] == "true"
+	if len(parts) > 2 {
+		n, _ := strconv.Atoi(parts[2])
+		id = uint32(n)
+	}
+	return
+}
+
+// w4ServerDone marks the command whose asynchronous handler completion just returned.
+func w4ServerDone(c *Client, id uint32) {
+	if tr, ok := c.Transport().(*w4Transport); ok {
+		if rec := tr.cl.cmds[id]; rec != nil {
+			rec.ServerDone = true
+			tr.cl.c05Completed(rec)
+		}
+	}
 }
 
 // ---------------------------------------------------------------- backend actor
@@ -820,6 +1023,8 @@ func (w *w4World) poll(ctx context.Context, ev SharedPollEvent) (SharedPollResul
 	}
 	s.Event("poll %d begin %v", n, keys)
 	s.Probe("poll")
+	w.pollsInFlight++
+	defer func() { w.pollsInFlight-- }()
 	var items []SharedPollRefreshItem
 	var ep string
 	if !plan.SnapEnd {
@@ -936,6 +1141,7 @@ func (w *w4World) runBackend(ops []w4Op) {
 			s.Fault("stale_publish")
 		case "bdel":
 			w.store.keys[key].removed = true
+			w.bdelSeen = true
 			s.Event("backend removes %s", key)
 			s.Fault("backend_removed_key")
 		case "flip":
@@ -975,6 +1181,10 @@ func (w *w4World) runAdmin(ops []w4Op) {
 			w.sleepUntil(op.DelayMs)
 			continue
 		}
+		if op.K == "usleep" {
+			s.Sleep(time.Duration(op.Us) * time.Microsecond)
+			continue
+		}
 		s.Pause()
 		switch op.K {
 		case "revoke":
@@ -997,7 +1207,9 @@ func (w *w4World) runAdmin(ops []w4Op) {
 			} else if op.Mode == 2 {
 				excl = []string{op.User}
 			}
+			w.revokesInCall++
 			w.node.sharedPollManager.SharedPollRevokeKeys(w4Channel, keys, users, excl)
+			w.revokesInCall--
 			r.RetSeq = w.next()
 			r.RetAt = s.Now()
 			s.Event("revoke returned")
@@ -1009,6 +1221,17 @@ func (w *w4World) runAdmin(ops []w4Op) {
 			s.Event("node disconnect %s", op.User)
 			s.Fault("server_disconnect")
 			_ = w.node.Disconnect(op.User)
+		case "kill":
+			w.kill(op)
+		case "shutdown":
+			s.Event("node shutdown")
+			s.Fault("node_shutdown")
+			w.shutdownDone = true
+			ctx, cancel := context.WithTimeout(context.Background(), 30*time.Second)
+			_ = w.node.Shutdown(ctx)
+			cancel()
+			s.Pause()
+			s.Event("node shutdown returned")
 		}
 	}
 }
@@ -1029,8 +1252,11 @@ func w4Run(s *simrt.Sim, script any, prop string) {
 		s.Violate(prop, "harness", "node setup failed", "%v", err)
 		return
 	}
+	if sc.Cfg.C05 {
+		w.base = w.snapshotGauges()
+	}
 	for i, spec := range sc.Clients {
-		cl := &w4Conn{w: w, idx: i, spec: spec, cmds: map[uint32]*w4Cmd{}, keys: map[string]*w4KeyState{}, wantKeys: map[string]bool{}}
+		cl := &w4Conn{w: w, idx: i, spec: spec, cmds: map[uint32]*w4Cmd{}, keys: map[string]*w4KeyState{}, wantKeys: map[string]bool{}, named: map[string]*w4Named{}}
 		cl.proto = ProtocolTypeJSON
 		if spec.Proto == "protobuf" {
 			cl.proto = ProtocolTypeProtobuf
@@ -1076,6 +1302,10 @@ func w4Run(s *simrt.Sim, script any, prop string) {
 		<-done
 	}
 	s.Pause()
+	if sc.Cfg.C05 {
+		w.c05Finish()
+		return
+	}
 	// quiesce: the backend answers at once and without errors from now on
 	w.traffic = false
 	w.quiesceAt = s.Now()
@@ -1106,6 +1336,9 @@ func w4Run(s *simrt.Sim, script any, prop string) {
 var w4Rendezvous = []int{10, 20, 50, 100, 200, 400}
 
 func w4Gen(c *simrt.Choice, prop, tier string) any {
+	if prop == "C05" {
+		return w4GenC05(c, tier)
+	}
 	sc := &w4Script{}
 	cfg := &sc.Cfg
 	cfg.Versioned = c.Intn(3) != 0
@@ -1134,6 +1367,9 @@ func w4Gen(c *simrt.Choice, prop, tier string) any {
 	sc.NKeys = []int{1, 1, 2, 3}[c.Intn(4)]
 	if c.Intn(40) == 39 {
 		return w4GenResume(c, sc)
+	}
+	if c.Intn(20) == 19 {
+		return w4GenRevokeRace(c, sc)
 	}
 	pickKey := func() int { return c.Intn(sc.NKeys) }
 	maxOps := 8
@@ -1304,6 +1540,68 @@ func w4GenResume(c *simrt.Choice, sc *w4Script) any {
 	return sc
 }
 
+// w4GenRevokeRace is a scenario template: SharedPollRevokeKeys for one user races with the
+// track of the same key by a connection of ANOTHER user (in the window between the
+// trackKeys reservation and the hub join of handleTrack); the revoked connections were the
+// key's only subscribers (or there were none), then the backend keeps changing the key
+// while the second connection stays tracked: it must converge (the revocation does not
+// concern it). With ProcDelayUs > 0 a slow OnCommandProcessed tracing hook keeps the window
+// open for that long and the admin task acts in the middle of it.
+func w4GenRevokeRace(c *simrt.Choice, sc *w4Script) any {
+	cfg := &sc.Cfg
+	cfg.CallTimeoutMs, cfg.NotifBatchSize, cfg.NotifBatchDelayMs, cfg.Epoch0 = 0, 0, 0, ""
+	cfg.ProcDelayUs = []int{200, 20, 0}[c.Intn(3)]
+	sc.NKeys = 1 + c.Intn(2)
+	k := c.Intn(sc.NKeys)
+	t := []int{100, 50, 200}[c.Intn(3)]
+	d := 0
+	if c.Intn(3) == 0 {
+		d = []int{1, 10}[c.Intn(2)] // asynchronous OnTrack
+	}
+	b := w4Client{Proto: []string{"json", "protobuf"}[c.Intn(2)], User: "u1", Delta: c.Intn(2) == 0}
+	b.Ops = []w4Op{{K: "sub"}, {K: "at", DelayMs: t}, {K: "track", Keys: []int{k}, DelayMs: d}, {K: "sleep", DelayMs: 700}}
+	sc.Clients = []w4Client{b}
+	if c.Intn(3) != 0 {
+		// the revoked user's connection is the key's only subscriber
+		a := w4Client{Proto: []string{"json", "protobuf"}[c.Intn(2)], User: "u0", Delta: c.Intn(2) == 0}
+		a.Ops = []w4Op{{K: "sub"}, {K: "track", Keys: []int{k}}}
+		sc.Clients = append(sc.Clients, a)
+	}
+	adm := []w4Op{{K: "at", DelayMs: t}}
+	if d > 0 {
+		adm = append(adm, w4Op{K: "sleep", DelayMs: d})
+	}
+	if cfg.ProcDelayUs > 0 {
+		adm = append(adm, w4Op{K: "usleep", Us: cfg.ProcDelayUs / 2})
+	}
+	if c.Intn(2) == 0 {
+		adm = append(adm, w4Op{K: "revoke", Keys: []int{k}, Mode: 1, User: "u0"})
+	} else {
+		adm = append(adm, w4Op{K: "revoke", Keys: []int{k}, Mode: 2, User: "u1"})
+	}
+	sc.Admins = [][]w4Op{adm}
+	var ops []w4Op
+	if c.Intn(2) == 0 {
+		ops = append(ops, w4Op{K: "at", DelayMs: 20}, w4Op{K: "bumpn", Keys: []int{k}})
+	}
+	for _, at := range []int{t + 30, t + 150, t + 400} {
+		if c.Intn(4) != 0 {
+			kind := "bumpn"
+			if cfg.Versioned && c.Intn(2) == 0 {
+				kind = "pub"
+			}
+			ops = append(ops, w4Op{K: "at", DelayMs: at}, w4Op{K: kind, Keys: []int{k}})
+		}
+	}
+	ops = append(ops, w4Op{K: "at", DelayMs: t + 600}, w4Op{K: "bumpn", Keys: []int{k}})
+	sc.Backend = [][]w4Op{ops}
+	sc.Polls = nil
+	if c.Intn(2) == 0 {
+		sc.Polls = []w4Poll{{DelayMs: []int{1, 10}[c.Intn(2)]}}
+	}
+	return sc
+}
+
 func w4Shrinks(script any) []any {
 	sc := script.(*w4Script)
 	var out []any
@@ -1370,6 +1668,15 @@ func w4Shrinks(script any) []any {
 		func(c *w4Cfg) { c.PrevData = false },
 		func(c *w4Cfg) { c.SkipUnchanged = false },
 		func(c *w4Cfg) { c.RespectCtx = false },
+		func(c *w4Cfg) { c.Presence = "" },
+		func(c *w4Cfg) { c.PresenceMs = 0 },
+		func(c *w4Cfg) { c.QueueMax = 0 },
+		func(c *w4Cfg) { c.ProcDelayUs = 0 },
+		func(c *w4Cfg) {
+			if c.C05 {
+				c.Epoch0 = ""
+			}
+		},
 	} {
 		c := clone()
 		before, _ := json.Marshal(c.Cfg)
@@ -1377,6 +1684,18 @@ func w4Shrinks(script any) []any {
 		after, _ := json.Marshal(c.Cfg)
 		if string(before) != string(after) {
 			out = append(out, c)
+		}
+	}
+	if sc.Cfg.C05 {
+		// asynchronous handler completions -> synchronous
+		for i := range sc.Clients {
+			for j, op := range sc.Clients[i].Ops {
+				if (op.K == "track" || op.K == "sub") && op.DelayMs > 0 {
+					c := clone()
+					c.Clients[i].Ops[j].DelayMs = 0
+					out = append(out, c)
+				}
+			}
 		}
 	}
 	for i := range sc.Clients {
@@ -1407,4 +1726,5 @@ func init() {
 	})
 	simrt.Claim("C25", "w4", 10)
 	simrt.Claim("C14", "w4", 5)
+	simrt.Claim("C05", "w4", 4)
 }
